@@ -19,6 +19,12 @@ structure SidConf where
   typedNarrowing : List (Str × Str)
   deriving Repr, Inhabited, DecidableEq
 
+-- staged instances: equality of the nested tables below is beyond the default search depth
+instance instDecEqKeyTable : DecidableEq (Str × List (Str × Str)) := inferInstance
+instance instDecEqKeyTables : DecidableEq (List (Str × List (Str × Str))) := inferInstance
+instance instDecEqExtraEntry : DecidableEq (Str × List (Str × List (Str × Str))) := inferInstance
+instance instDecEqExtraTable : DecidableEq (List (Str × List (Str × List (Str × Str)))) := inferInstance
+
 /-- one path configuration (`PathConfig`) -/
 structure PathConf where
   name : Str
@@ -28,6 +34,13 @@ structure PathConf where
   defaults : List (Str × Str)
   /-- `search_path_mapping` -/
   searchMapping : List (Str × Str)
+  /-- `path_mapping[(key, type)]` : the value mapping of ONE type (path value → sid value); empty in the
+      shipped configurations (`Spil.Model.PathX` is the model of the code that reads it) -/
+  typedMapping : List ((Str × Str) × List (Str × Str)) := []
+  /-- `sidkeys_to_extrakeys` : sid key ↦ extra key ↦ (path-side value of the sid key ↦ value of the extra key) -/
+  sidToExtra : List (Str × List (Str × List (Str × Str))) := []
+  /-- `extrakeys_to_sidkeys` : extra key ↦ sid key ↦ (value of the extra key ↦ sid value) -/
+  extraToSid : List (Str × List (Str × List (Str × Str))) := []
   deriving Repr, Inhabited, DecidableEq
 
 structure Conf where
